@@ -2016,12 +2016,28 @@ pub fn run(out: &str, seed: u64, thorough: bool, _side: &str) {
         let mut parents: Vec<usize> = (0..ctx.spec.types.len()).filter(|i| g.reach[*i] && ctx.spec.types[*i].ety.content_mode() != ContentMode::Characters).collect();
         *k.stats.entry(format!("parent_types_reachable_{}", vname(v))).or_insert(0) = parents.len() as u64;
         if parents.len() > per_version {
+            // parents with a sub-element whose named-ness depends on the version (identifiable in other versions only) or that is
+            // absent from this version: a seeded handful of them always takes part
+            let sensitive: Vec<usize> = parents
+                .iter()
+                .copied()
+                .filter(|i| {
+                    ctx.spec.types[*i].ety.sub_element_spec_iter().any(|(_, ct, mask, _)| (mask & (v as u32)) != 0 && ct.is_named() && !ct.is_named_in_version(v))
+                })
+                .collect();
+            *k.stats.entry(format!("parents_with_version_dependent_names_{}", vname(v))).or_insert(0) = sensitive.len() as u64;
             // seeded sample without replacement
             for i in 0..per_version {
                 let j = i + rng.below(parents.len() - i);
                 parents.swap(i, j);
             }
             parents.truncate(per_version);
+            for _ in 0..12.min(sensitive.len()) {
+                let c = sensitive[rng.below(sensitive.len())];
+                if !parents.contains(&c) {
+                    parents.push(c);
+                }
+            }
         }
         for tidx in parents {
             case_id += 1;
